@@ -10,7 +10,7 @@ trap cleanup EXIT
 S=$w/src
 build_demo() {
   if [ -f "$d/demo.sh" ]; then cp "$d/demo.sh" "$w/demo.sh"; return 0; fi
-  gcc -std=gnu99 -w -g -D_GNU_SOURCE -I$S/include/qlibc -I$S/include -I$S/src/internal $(cat "$d/demo.flags" 2>/dev/null) "$@" "$d/demo.c" $S/src/containers/*.c $S/src/utilities/*.c $S/src/extensions/qconfig.c $S/src/extensions/qaconf.c $S/src/extensions/qlog.c $S/src/internal/*.c $S/src/internal/md5/*.c $S/src/ipc/*.c -lpthread -o "$w/demo" 2>"$w/cc.log" || { echo "demo does not compile"; tail -5 "$w/cc.log"; return 1; }
+  gcc -std=gnu99 -w -g -D_GNU_SOURCE -I$S/include/qlibc -I$S/include -I$S/src/internal $(cat "$d/demo.flags" 2>/dev/null) "$@" "$d/demo.c" $S/src/containers/*.c $S/src/utilities/*.c $S/src/extensions/qconfig.c $S/src/extensions/qaconf.c $S/src/extensions/qlog.c $S/src/internal/*.c $S/src/internal/md5/*.c $S/src/ipc/*.c -lpthread $(cat "$d/demo.libs" 2>/dev/null) -o "$w/demo" 2>"$w/cc.log" || { echo "demo does not compile"; tail -5 "$w/cc.log"; return 1; }
 }
 run_demo() { if [ -f "$w/demo.sh" ]; then ( cd "$S" && SRC=$S timeout 300 sh "$w/demo.sh" ) >"$w/demo.out" 2>&1; else ( cd "$w" && timeout 300 ./demo ) >"$w/demo.out" 2>&1; fi; }
 build_demo "$@" || exit 2
